@@ -35,7 +35,9 @@ CTX_KEY = "_DJC_COMPONENT_CTX"
 #   fills: list of (slot index, forest, explicit)   explicit=False: body written without {% fill %} (slot 0 only)
 #   P: component k rendered from Python while the surrounding template renders; via = "lazy" (callable context
 #      variable, evaluated where {{ v }} stands), "lazy-deps" (same, render_dependencies=True), "before"
-#      (on_render_before hook puts the HTML into the context)
+#      (on_render_before hook puts the HTML into the context), "self-gcd" / "self-before" (the SAME Component instance
+#      renders template k: self.render(kwargs=...) inside get_context_data / on_render_before, Component.id read afterwards).
+#      The eager kinds (before, self-*) stand at the top level of a template or inside elements, never inside fills or loops.
 # lib: list of (template forest, marked)    page: forest
 # ------------------------------------------------------------------------------------------------
 
@@ -191,39 +193,81 @@ def coq_prog(lib, page, mode):
 # implementation side
 # ------------------------------------------------------------------------------------------------
 _uid = [0]
-LOG = []          # (Component.id, rendered without a parent, ... while another instance is being rendered, pending attr entries)
+_NEST = [0]       # > 0 while a component's get_context_data is rendering the same instance again (self.render)
+LOG = []          # per instance, in creation order: [Component.id at the start of the render, rendered without a parent,
+                  #   ... while another instance is being rendered, pending attr entries, Component.id at the end of
+                  #   get_context_data, Component.id at the end of on_render_before (None: hook not used)]
+EAGER = ("before", "self-gcd", "self-before")
 
 
 def _log(comp):
     import django_components.perfutil.component as Pm
     root = not comp.input.context.get(CTX_KEY, None)
-    LOG.append((comp.id, root, root and len(Pm.component_context_cache) > 0, len(Pm.child_component_attrs)))
+    e = [comp.id, root, root and (len(Pm.component_context_cache) > 0 or _NEST[0] > 0), len(Pm.child_component_attrs), None, None]
+    LOG.append(e)
+    return e
+
+
+def self_targets(f):
+    out = []
+    for t in f:
+        if t[0] == "P" and t[2].startswith("self"):
+            out.append(t[1])
+        for x in subforests(t):
+            out.extend(self_targets(x))
+    return out
 
 
 def build_components(lib):
-    """Create and register one Component class per library entry. Returns (names, classes)."""
+    """Create and register one Component class per library entry. Returns (names, classes).
+    A Python-rendered component `P(k, "self-...")` is rendered by the SAME Component instance (self.render(kwargs=...)
+    from get_context_data / on_render_before): the class then carries the template of entry k as a variant of its own."""
     from django_components import Component, registry
     _uid[0] += 1
     names = ["c14_%d_%d" % (_uid[0], i) for i in range(len(lib))]
     classes = []
-    for i, (f, marked) in enumerate(lib):
-        ctx = {"prefix": "py%d" % i, "vars": []}
-        body = src_forest(f, names, ctx)
-        tpl = ("[[B{{ id }}]]%s[[E{{ id }}]]" % body) if marked else body
-        lazy = [(v, k, via) for v, k, via in ctx["vars"] if via != "before"]
-        before = [(v, k, via) for v, k, via in ctx["vars"] if via == "before"]
+    for i in range(len(lib)):
+        variants = [i]
+        for v in variants:
+            for k in self_targets(lib[v][0]):
+                if k not in variants:
+                    variants.append(k)
+        parts, info = [], {}
+        for v in variants:
+            ctx = {"prefix": "py%dv%d" % (i, v), "vars": []}
+            body = src_forest(lib[v][0], names, ctx)
+            text = ("[[B{{ id }}]]%s[[E{{ id }}]]" % body) if lib[v][1] else body
+            parts.append(text if len(variants) == 1 else "{%% if c14v == %d %%}%s{%% endif %%}" % (v, text))
+            info[v] = ctx["vars"]
 
-        def gcd(self, _lazy=lazy, **kw):
-            _log(self)
-            d = {"id": self.id}
-            for v, k, via in _lazy:
-                d[v] = (lambda k=k, via=via: classes[k].render(render_dependencies=(via == "lazy-deps")))
+        def gcd(self, variant=None, _i=i, _info=info, **kw):
+            v = _i if variant is None else variant
+            e = _log(self)
+            d = {"c14v": v, "c14e": e}
+            for var, k, via in _info[v]:
+                if via in ("lazy", "lazy-deps"):
+                    d[var] = (lambda k=k, via=via: classes[k].render(render_dependencies=(via == "lazy-deps")))
+                elif via == "self-gcd":
+                    _NEST[0] += 1
+                    try:
+                        d[var] = self.render(kwargs={"variant": k}, render_dependencies=False)
+                    finally:
+                        _NEST[0] -= 1
+            d["id"] = e[4] = self.id          # read AFTER the nested renders of this instance returned
             return d
-        attrs = {"template": tpl, "get_context_data": gcd, "__module__": "verif_c14_%d" % _uid[0]}
-        if before:
-            def orb(self, context, template, _before=before):
-                for v, k, via in _before:
-                    context[v] = classes[k].render(render_dependencies=False)
+        attrs = {"template": "".join(parts), "get_context_data": gcd, "__module__": "verif_c14_%d" % _uid[0]}
+        if any(via in ("before", "self-before") for vs in info.values() for _v, _k, via in vs):
+            def orb(self, context, template, _info=info):
+                hooked = False
+                for var, k, via in _info[context["c14v"]]:
+                    if via == "before":
+                        context[var] = classes[k].render(render_dependencies=False)
+                        hooked = True
+                    elif via == "self-before":
+                        context[var] = self.render(kwargs={"variant": k}, render_dependencies=False)
+                        hooked = True
+                if hooked:
+                    context["id"] = context["c14e"][5] = self.id
             attrs["on_render_before"] = orb
         cls = type("C14Comp_%d_%d" % (_uid[0], i), (Component,), attrs)
         registry.register(names[i], cls)
@@ -253,9 +297,9 @@ def ensure_dyn():
         template = "[[B{{ id }}]]" + DynamicComponent.template + "[[E{{ id }}]]"
 
         def get_context_data(self, *a, **k):
-            _log(self)
+            e = _log(self)
             d = super().get_context_data(*a, **k)
-            d["id"] = self.id
+            d["id"] = e[4] = self.id
             return d
     registry.register("c14dyn", C14Dyn)
     _dyn_registered[0] = True
@@ -343,10 +387,16 @@ def parse_html(s):
     return p.toks
 
 
-def direct_oracle(toks, logged, all_marked):
+def direct_oracle(toks, log, all_marked):
     """The property, evaluated on the implementation's output alone. Returns list of failure strings.
-    logged: Component.id of every instance, in the order the instances were created."""
+    log: one entry per instance, in the order the instances were created (see LOG)."""
     fails = []
+    logged = [e[0] for e in log]
+    for e in log:
+        for later, where in ((e[4], "get_context_data"), (e[5], "on_render_before")):
+            if later is not None and later != e[0]:
+                fails.append("Component.id reported %s at the start of the render and %s at the end of %s (after a nested "
+                             "render of the same instance returned)" % (e[0], later, where))
     if len(set(logged)) != len(logged):
         fails.append("two instances on the page reported the same Component.id: %r" % (logged,))
     if any(not re.fullmatch(r"\w{6}", i or "") for i in logged):
@@ -552,6 +602,7 @@ def gen_reentrant(thorough):
     mids = [
         [E("section", S())], [S()], [S(), E("span")], [E("div", P(2))], [P(2, "before"), S()], [S(name=1)],
         [E("section", S(), S(Cc(2), name=1))], [Cc(2, S())], [If(1, S()), If(0, S())], [E("p", P(2, "lazy-deps")), Cc(2)],
+        [E("div", P(2, "self-gcd"), S())], [P(2, "self-before"), E("span", S())],
     ]
     leaves = [[E("span")], [], [T], [E("li"), E("li")], [P(3)]]
     foots = [[E("p")], [E("div"), T, E("span", E("p"))]]
@@ -620,7 +671,7 @@ def gen_random(rng, n, marked_all=True):
             f = gen_forest(rng, [rng.choice([2, 4, 6, 8])], avail, "tpl")
             if avail and rng.random() < 0.10:
                 # hook-rendered component (on_render_before), echoed at the start of the template or of an element
-                p = P(rng.choice(avail), "before")
+                p = P(rng.choice(avail), rng.choice(["before", "self-gcd", "self-before"]))
                 if f and f[0][0] == "E" and rng.random() < 0.5:
                     f[0] = ("E", f[0][1], [p] + f[0][2], f[0][3])
                 else:
@@ -668,7 +719,7 @@ def run_case(chk, lib, page, mode, api, kind, terms, cases, ids="counter"):
     logged = [l[0] for l in log]
     toks = parse_html(html_out)
     all_marked = all(m for _f, m in lib)
-    fails = direct_oracle(toks, logged, all_marked)
+    fails = direct_oracle(toks, log, all_marked)
     nontriv = measure_nontrivial(toks)
     nre = sum(1 for l in log if l[2])
     npend = sum(1 for l in log if l[2] and l[3] > 0)
@@ -685,11 +736,14 @@ def run_case(chk, lib, page, mode, api, kind, terms, cases, ids="counter"):
                       "html": html_out[:700]} if (nontriv and npend and kind == "random" and len(html_out) < 1000) else None)
     order = {x: i for i, x in enumerate(logged)}
     ctoks = canon_tokens(toks, order)
-    ref, ninst, fuel = reference_doc(lib, page)
-    if canon_tokens(ref) != ctoks:
-        fails.append("elements / data-djc-id sets differ from the reference (ids on the top-level elements of each instance's output, nowhere else)")
-    elif ninst != len(logged):
-        fails.append("%d instances rendered, %d expected" % (len(logged), ninst))
+    if kind.startswith("chain"):
+        fuel = 2 * len(lib) + 10          # (the reference is recursive Python; chains go far beyond the interpreter's limit)
+    else:
+        ref, ninst, fuel = reference_doc(lib, page)
+        if canon_tokens(ref) != ctoks:
+            fails.append("elements / data-djc-id sets differ from the reference (ids on the top-level elements of each instance's output, nowhere else)")
+        elif ninst != len(logged):
+            fails.append("%d instances rendered, %d expected" % (len(logged), ninst))
     if fails:
         chk.fail("c14-root-ids", fails[0], dict(case, failures=fails[:5], html=html_out[:4000]))
     terms.append("(%s, %s, %s, %s, %s)" % (cN(fuel), coq_prog(lib, page, mode), coq_obs(ctoks), cN(len(logged)), cN(nre)))
@@ -712,6 +766,11 @@ CORPUS = [
     # ... scenario 2: Component.render() from on_render_before / from a lazily evaluated variable, then a sibling root component
     {"lib": [([Cc(1), Cc(3)], True), ([E("section", P(2, "before"))], True), ([E("span")], True), ([E("p")], True)], "page": [Cc(0)]},
     {"lib": [([Cc(1), Cc(3)], True), ([E("section", P(2))], True), ([E("span")], True), ([E("p")], True)], "page": [Cc(0)]},
+    # seeded change C14b (_with_metadata pops the oldest entry): a tree component renders its children by calling
+    # self.render() on the SAME instance from get_context_data / on_render_before and reads Component.id afterwards
+    {"lib": [([E("ul", E("li"), P(1, "self-gcd"), P(2, "self-gcd"))], True), ([E("ul", E("li"), P(2, "self-gcd"), P(2, "self-gcd"))], True),
+             ([E("ul", E("li"))], True)], "page": [E("section", Cc(0))]},
+    {"lib": [([P(1, "self-before"), E("p"), Cc(2)], True), ([E("div", P(2, "self-gcd"))], True), ([E("span")], True)], "page": [Cc(0), Cc(1)]},
     # ... the re-entrant run's output at the ROOT of the forwarding component, three levels of pending entries
     {"lib": [([Cc(1, S()), Cc(3)], True), ([Cc(2, S()), Cc(3)], True), ([S(), Cc(3)], True), ([E("p")], True)], "page": [Cc(0, Cc(3), E("li"))]},
 ]
@@ -783,7 +842,7 @@ def run(tier, seed):
         rule="programs = library of <=5 components (templates over elements/text/component tags incl. DynamicComponent/two slot names with "
              "default content/implicit + named fills/slots inside fills and defaults/for-loops over 0..3 items/if/components rendered from "
              "Python via lazy variable or on_render_before) + page, context_behavior django|isolated; families: corpus (incl. the two scenarios "
-             "of seeded change C14a); the layout pattern (12 x 10 x 5 x 2 x 7 shapes%s: forwarded slots, Python renders, a later root "
+             "of seeded change C14a); the layout pattern (12 x 12 x 5 x 2 x 7 shapes%s: forwarded slots, Python renders, a later root "
              "component waiting); all 3-level libraries over %d x %d x %d template shapes x 4 fills%s; seeded random programs; single-root "
              "pages through Component.render (with and without render_dependencies); chains of depth 30/300%s both as nested elements and as "
              "component-is-root chains; a batch with the library's own random id generator. Non-trivial = the output has an element shared "
@@ -936,7 +995,7 @@ def replay(path):
     if html_out is not None:
         logged = [l[0] for l in log]
         toks = parse_html(html_out)
-        fails = direct_oracle(toks, logged, all(m for _f, m in c["lib"]))
+        fails = direct_oracle(toks, log, all(m for _f, m in c["lib"]))
         ctoks = canon_tokens(toks, {x: i for i, x in enumerate(logged)})
         ref, ninst, fuel = reference_doc(c["lib"], c["page"])
         if canon_tokens(ref) != ctoks:
